@@ -320,17 +320,45 @@ def run_lines(binary, lines, env=None, timeout=600, cwd=None):
     return p.stdout.split('\n')[:-1], p.returncode, p.stderr
 
 
+OUTPUT_CAP = 256 * 1024 * 1024      # larger than any legitimate output or temporary file (a full MMB inflates to 100 MiB)
+
+
 def run_cmd(argv, stdin=b'', env=None, timeout=20, cwd=None):
+    """run a program; returns (exit status, stdout, stderr).  -999 = did not end within `timeout` seconds,
+    -998 = wrote more than OUTPUT_CAP bytes of output (killed; runaway output is reported, not swallowed)."""
     e = dict(os.environ)
     e['ASAN_OPTIONS'] = 'detect_leaks=0:abort_on_error=0:exitcode=99'
     e['UBSAN_OPTIONS'] = 'print_stacktrace=1:halt_on_error=1:exitcode=98'
     if env:
         e.update(env)
-    try:
-        p = subprocess.run(argv, input=stdin, capture_output=True, env=e, timeout=timeout, cwd=cwd)
-        return p.returncode, p.stdout, p.stderr
-    except subprocess.TimeoutExpired:
-        return -999, b'', b'timeout'
+    import tempfile
+    import time as _t
+    with tempfile.TemporaryFile() as fo, tempfile.TemporaryFile() as fe, tempfile.TemporaryFile() as fi:
+        fi.write(stdin or b'')
+        fi.seek(0)
+        # output goes to unlinked temporary files (RLIMIT_FSIZE caps a runaway writer without holding it in memory)
+        import resource
+
+        def lim():
+            resource.setrlimit(resource.RLIMIT_FSIZE, (OUTPUT_CAP, OUTPUT_CAP))
+        p = subprocess.Popen(argv, stdin=fi, stdout=fo, stderr=fe, env=e, cwd=cwd, preexec_fn=lim)
+        try:
+            rc = p.wait(timeout=timeout)
+        except subprocess.TimeoutExpired:
+            p.kill()
+            p.wait()
+            fo.seek(0)
+            fe.seek(0)
+            return -999, fo.read(1 << 20), b'timeout'
+        fo.seek(0, 2)
+        size = fo.tell()
+        fo.seek(0)
+        fe.seek(0)
+        out = fo.read(OUTPUT_CAP)
+        err = fe.read(1 << 22)
+        if size >= OUTPUT_CAP or rc == -25:      # SIGXFSZ
+            return -998, out[:1 << 20], err + b'\n[output exceeded %d bytes]' % OUTPUT_CAP
+        return rc, out, err
 
 
 def hexs(b):
